@@ -274,3 +274,178 @@ def _swap_blocks(texts, mod, a, b):
         raise LookupError("adjacent blocks")
     texts[mod] = src[:ia] + b + a + src[ib + len(b):]
     return texts
+
+
+# ======================================================= C02 / C11 / C14 ====
+B("c14-eq-ignores-interval", ["C14"], ["R16"],
+  ("data", "        for attr in [\"_repetitions\", \"_start_point\", \"_end_point\", \"_duration\",\n"
+           "                     \"_min_point\", \"_max_point\"]:",
+   "        for attr in [\"_repetitions\", \"_start_point\", \"_end_point\",\n"
+   "                     \"_min_point\", \"_max_point\"]:"),
+  canary=True, note="the property's own example")
+B("c14-hash-includes-format", ["C14"], ["R16"],
+  ("data", "        return hash((self._repetitions, self._start_point, self._end_point,\n"
+           "                     self._duration, self._min_point, self._max_point))",
+   "        return hash((self._repetitions, self._start_point, self._end_point,\n"
+   "                     self._duration, self._format_number, self._max_point))"))
+B("c11-eq-raw-days", ["C11"], ["R16"],
+  ("data", "                    return (self._get_non_nominal_seconds() ==\n"
+           "                            other._get_non_nominal_seconds())",
+   "                    return (self._days == other._days and\n"
+   "                            self._get_non_nominal_seconds() ==\n"
+   "                            other._get_non_nominal_seconds())"),
+  canary=True)
+B("c11-hash-raw-hours", ["C11"], ["R16"],
+  ("data", "        return hash(\n            (self._years, self._months, self._get_non_nominal_seconds()))",
+   "        return hash(\n            (self._years, self._months, self._hours,\n"
+   "             self._get_non_nominal_seconds()))"))
+B("c11-hash-week-shape", ["C11"], ["R16"],
+  ("data", "            return hash((0, 0, self._get_non_nominal_seconds()))",
+   "            return hash((self._weeks, self._get_non_nominal_seconds()))"))
+B("c11-le-uses-seconds", ["C11"], ["R16"],
+  ("data", "            return self.get_days_and_seconds() <= other.get_days_and_seconds()",
+   "            return self.get_seconds() <= other.get_seconds()"))
+B("c11-gt-wrong-operator", ["C11"], ["R16"],
+  ("data", "            return self.get_days_and_seconds() > other.get_days_and_seconds()",
+   "            return self.get_days_and_seconds() >= other.get_days_and_seconds()"))
+B("c11-add-drops-minutes", ["C11"], ["R17"],
+  ("data", "            new._minutes += other._minutes\n", ""), canary=True)
+B("c11-add-mixes-slots", ["C11"], ["R17"],
+  ("data", "            new._minutes += other._minutes\n",
+   "            new._minutes += other._seconds\n"))
+B("c11-nonnominal-skips-hours", ["C11"], ["R17"],
+  ("data", "        return (self._days * CALENDAR.SECONDS_IN_DAY +\n"
+           "                self._hours * CALENDAR.SECONDS_IN_HOUR +\n",
+   "        return (self._days * CALENDAR.SECONDS_IN_DAY +\n"))
+B("c02-gt-routes-ge", ["C02"], ["R16"],
+  ("data", "        return self._cmp(other, \"gt\")",
+   "        return self._cmp(other, \"ge\")"), canary=True)
+B("c02-custom-ne", ["C02"], ["R16"],
+  ("data", "    def __lt__(self, other: \"TimePoint\") -> bool:\n        return self._cmp(other, \"lt\")",
+   "    def __ne__(self, other: \"TimePoint\") -> bool:\n        return self < other\n\n"
+   "    def __lt__(self, other: \"TimePoint\") -> bool:\n        return self._cmp(other, \"lt\")"))
+B("c02-reflexive-shortcut-lt", ["C02"], ["R16"],
+  ("data", "return True if op in [\"eq\", \"le\", \"ge\"] else False",
+   "return True if op in [\"eq\", \"le\", \"ge\", \"lt\"] else False"))
+B("c02-operands-swapped", ["C02"], ["R16"],
+  ("data", "        return _operator_map[op](my_datetime, other_datetime)",
+   "        return _operator_map[op](other_datetime, my_datetime)"))
+B("c16-copy-shares-zone", ["C16"], ["R17"],
+  ("data", "        new_timepoint._time_zone = self._time_zone._copy()\n", ""))
+K("c14k-eq-explicit",
+  ("data", "        for attr in [\"_repetitions\", \"_start_point\", \"_end_point\", \"_duration\",\n"
+           "                     \"_min_point\", \"_max_point\"]:\n"
+           "            if getattr(self, attr) != getattr(other, attr):\n"
+           "                return False\n"
+           "        return True",
+   "        return (self._repetitions == other._repetitions and\n"
+   "                self._start_point == other._start_point and\n"
+   "                self._end_point == other._end_point and\n"
+   "                self._duration == other._duration and\n"
+   "                self._min_point == other._min_point and\n"
+   "                self._max_point == other._max_point)"))
+K("c11k-ordering-reordered-methods",
+  ("data", "    def __rmul__(self, other):\n        return self.__mul__(other)",
+   "    def __rmul__(self, other):\n        return self * other"))
+
+
+# ======================================================= C12 / C13 / C14 ====
+B("c13-first-after-unguarded", ["C13"], ["R19"],
+  ("data", "                next_timepoint = timepoint + (self._duration - Duration(\n"
+           "                    seconds=floor(seconds_since)))\n"
+           "                if self._get_is_in_bounds(next_timepoint):\n"
+           "                    return next_timepoint\n"
+           "                return None\n",
+   "                return timepoint + (self._duration - Duration(\n"
+   "                    seconds=floor(seconds_since)))\n"),
+  canary=True, note="revert of fix D2")
+B("c13-get-prev-unguarded", ["C13"], ["R19"],
+  ("data", "        prev_timepoint = timepoint - self._duration\n"
+           "        if self._get_is_in_bounds(prev_timepoint):\n"
+           "            return prev_timepoint\n"
+           "        return None",
+   "        prev_timepoint = timepoint - self._duration\n"
+   "        return prev_timepoint"))
+B("c13-guard-wrong-variable", ["C13"], ["R19"],
+  ("data", "        next_timepoint = timepoint + self._duration\n"
+           "        if self._get_is_in_bounds(next_timepoint):",
+   "        next_timepoint = timepoint + self._duration\n"
+   "        if self._get_is_in_bounds(timepoint):"))
+B("c13-early-exit-flipped", ["C13"], ["R19"],
+  ("data", "            if self._end_point is None and iter_timepoint > timepoint:",
+   "            if self._end_point is None and iter_timepoint < timepoint:"))
+B("c13-early-exit-wrong-slot", ["C13"], ["R19"],
+  ("data", "            if self._start_point is None and iter_timepoint < timepoint:",
+   "            if self._end_point is None and iter_timepoint < timepoint:"))
+B("c13-getitem-closed-form", ["C13"], ["R19"],
+  ("data", "        for i, point in enumerate(self.__iter__()):\n"
+           "            if index == i:\n"
+           "                return point\n",
+   "        if self._start_point is not None and self._duration is not None:\n"
+   "            return self._start_point + self._duration * index\n"
+   "        for i, point in enumerate(self.__iter__()):\n"
+   "            if index == i:\n"
+   "                return point\n"))
+B("c13-get-prev-adds", ["C13", "C12"], ["R19"],
+  ("data", "        prev_timepoint = timepoint - self._duration",
+   "        prev_timepoint = timepoint + self._duration"))
+B("c12-iter-from-end-when-start-given", ["C12"], ["R18"],
+  ("data", "        else:\n            point = self._start_point\n            in_reverse = False",
+   "        else:\n            point = self._end_point\n            in_reverse = False"))
+B("c12-iter-direction-flipped", ["C12"], ["R18"],
+  ("data", "            if in_reverse:\n                point = self.get_prev(point)\n"
+           "            else:\n                point = self.get_next(point)",
+   "            if in_reverse:\n                point = self.get_next(point)\n"
+   "            else:\n                point = self.get_prev(point)"), canary=True)
+B("c12-single-point-branch-dropped", ["C12"], ["R18"],
+  ("data", "        if self._repetitions == 1 or not self._duration:\n"
+           "            if self._get_is_in_bounds(point):\n"
+           "                yield point\n"
+           "            point = None\n", ""))
+B("c12-single-point-keeps-walking", ["C12"], ["R18"],
+  ("data", "                yield point\n            point = None\n",
+   "                yield point\n"))
+B("c14-single-point-shift-loses-anchor", ["C14"], ["R18"],
+  ("data", "                if self._start_point is None:\n"
+           "                    self._start_point = self._end_point\n"
+           "                if self._start_point is None:\n"
+           "                    raise BadInputError(\n"
+           "                        BadInputError.RECURRENCE, [i[:2] for i in inputs])\n",
+   ""), canary=True, note="revert of fix D3")
+B("c14-add-fmt4-passes-start", ["C14"], ["R18"],
+  ("data", "            kwargs = {\"end_point\": self._end_point + other,\n"
+           "                      \"duration\": self._duration}",
+   "            kwargs = {\"start_point\": self._end_point + other,\n"
+   "                      \"duration\": self._duration}"))
+B("c14-add-drops-repetitions", ["C14"], ["R18"],
+  ("data", "            repetitions=self._repetitions, **kwargs,",
+   "            **kwargs,"))
+B("c14-add-fmt1-uses-end-not-second", ["C14"], ["R18"],
+  ("data", "                      \"end_point\": self._second_point + other}",
+   "                      \"end_point\": self._end_point + other}"))
+B("c14-add-unshifted-anchor", ["C14"], ["R18"],
+  ("data", "            kwargs = {\"start_point\": self._start_point + other,\n"
+           "                      \"duration\": self._duration}",
+   "            kwargs = {\"start_point\": self._start_point,\n"
+   "                      \"duration\": self._duration}"))
+K("c14k-add-explicit-branches",
+  ("data", "        return self.__class__(\n"
+           "            repetitions=self._repetitions, **kwargs,\n"
+           "            min_point=self._min_point, max_point=self._max_point)",
+   "        kwargs[\"repetitions\"] = self._repetitions\n"
+   "        return TimeRecurrence(\n"
+   "            min_point=self._min_point, max_point=self._max_point, **kwargs)"))
+K("c13k-first-after-renamed",
+  ("data", "                next_timepoint = timepoint + (self._duration - Duration(\n"
+           "                    seconds=floor(seconds_since)))\n"
+           "                if self._get_is_in_bounds(next_timepoint):\n"
+           "                    return next_timepoint\n"
+           "                return None\n",
+   "                candidate = timepoint + (self._duration - Duration(\n"
+   "                    seconds=floor(seconds_since)))\n"
+   "                if not self._get_is_in_bounds(candidate):\n"
+   "                    return None\n"
+   "                return candidate\n"))
+K("c13k-is-valid-iter-self",
+  ("data", "        for iter_timepoint in self.__iter__():",
+   "        for iter_timepoint in self:"))
